@@ -147,6 +147,17 @@ def rule_must_invalidate(ctx):
     r.instance(function=nid, paths=len(paths), paths_removing_filtered_keys=len(rem))
     if not rem:
         r.violate(nid, 'filtered-keys-not-removed', 'HashMap::remove', 'invalidate_entries_if does not remove the keys selected by the predicate', where=ctx.where(nid))
+    # ... ALL of them: nothing between the map scan and the removals truncates the selection (a bounded batch leaves matching entries behind)
+    TRUNC = ('take', 'skip', 'step_by', 'take_while', 'skip_while', 'nth', 'last', 'truncate', 'split_off', 'pop', 'chunks', 'first', 'min', 'max',
+             'min_by_key', 'max_by_key', 'next_back', 'nth_back')
+    for f_ in [nid] + sorted(prog.closures_of.get(nid, [])):
+        fb = prog.bodies[f_]
+        for bi, t in fb.calls():
+            _, ext, _ = prog.call_targets(fb, t)
+            if ext and ext.split('::')[-1] in TRUNC and ('iter' in ext.lower() or 'Vec' in ext or 'slice' in ext):
+                r.violate(nid, 'selection-truncated', ext.split('::')[-1], 'invalidate_entries_if cuts the set of selected entries with `%s`: entries for which the predicate is true '
+                          'stay in the cache after the call' % ext.split('::')[-1], where=ctx.where(f_, t.get('line')), expected='every entry matching the predicate is removed')
+    r.instance(function=nid, truncating_adaptors_between_scan_and_removal=0 if not any(v_.construct == 'selection-truncated' for v_ in r.violations) else 1)
     r.require_floor(6 if has_sync else 4, 'invalidation paths')
     return r
 
@@ -277,6 +288,33 @@ def rule_update_resets(ctx):
                     r.violate(root, 'update-reset-origin', store, 'the update path writes EntryInfo.%s with something else than the clock reading of this insert' % store, where=ctx.where(root))
         if nocc == 0:
             raise CheckFailure('MUST-update-resets: no path of %s updates an occupied map slot (update arm not found)' % root)
+        # ... and a first insert starts both intervals: the entry stored into the vacant slot carries the clock reading of this insert in
+        # BOTH per-entry timestamp stores (the insert is an access; an unset store never expires)
+        nvac = 0
+        for p in _run(ctx, root, inline_depth=6):
+            if p.diverged:
+                continue
+            for e in p.events:
+                if not (e[0] == 'call' and e[1] in (VAC_INSERT, 'dashmap::DashMap::insert') and e[2]):
+                    continue
+                infos = [x for x in subterms(e[2][-1]) if isinstance(x, tuple) and x and x[0] == 'aggr' and norm(str(x[1])) in prog.adts and
+                         any(ts_name_kind(f_['name']) for f_ in prog.adts[norm(str(x[1]))]['variants'][0]['fields'])]
+                for info in infos[:1]:
+                    fields = prog.adts[norm(str(info[1]))]['variants'][0]['fields']
+                    for f_, fv in zip(fields, info[3]):
+                        kind_ = ts_name_kind(f_['name'])
+                        if not kind_:
+                            continue
+                        nvac += 1
+                        parts = set(x for x in subterms(fv) if isinstance(x, tuple))
+                        stamped = is_clock(fv) or any(w_[0] == 'write' and w_[1] in parts and is_clock(w_[2]) for w_ in p.events)
+                        r.instance(function=root, path='first insert (vacant slot)', store=f_['name'], initialised_with_clock_reading=stamped)
+                        if not stamped:
+                            r.violate(root, 'insert-does-not-stamp', f_['name'], 'the entry a first insert stores into the map has no clock reading in EntryInfo.%s: its %s interval never '
+                                      'starts, so the entry does not expire by it until something else writes the store' % (f_['name'], 'tti' if kind_ == 'ao' else 'ttl'),
+                                      where=ctx.where(root, e[3]), expected='EntryInfo::new(.., timestamp, ..) initialises last_accessed and last_modified with the timestamp')
+        if nvac < 2:
+            raise CheckFailure('MUST-update-resets: the entry stored by a first insert (vacant slot) and its timestamp stores were not found in %s' % root)
     # unsync: update role = handle_update
     nid = named(ctx, 'unsync.update_handler')
     for p in _run(ctx, nid, inline_depth=5):
@@ -303,6 +341,28 @@ def rule_update_resets(ctx):
                 r.violate(nid, 'update-reset-origin', store, 'the update path writes the %s timestamp with something else than the insert\'s clock reading' % store, where=ctx.where(nid))
     r.require_floor(4, 'update paths x stores')
     return r
+
+
+def _update_resets_for(kind, label):
+    """The same analysis, reporting only the verdicts about one of the two timestamp stores (wo = last modified / ttl, ao = last accessed / tti)."""
+    def rule(ctx):
+        full = rule_update_resets(ctx)
+        r = RuleResult('MUST-update-resets(%s)' % label, full.statement + ' -- verdicts about the %s store' % ('last-modified' if kind == 'wo' else 'last-accessed'))
+        r.instances = list(full.instances)
+        r.notes = list(full.notes)
+        r.floor = full.floor
+        for v in full.violations:
+            d = str(v.detail)
+            k_ = ts_name_kind(d) or ('wo' if 'modified' in d else ('ao' if 'accessed' in d else None))
+            if k_ in (kind, None):
+                v2 = r.violate(v.function, v.construct, v.detail, v.message, where=v.where, path=v.path, expected=v.expected)
+        return r
+    rule.__name__ = 'rule_update_resets_%s' % label
+    return rule
+
+
+rule_update_resets_ttl = _update_resets_for('wo', 'ttl')
+rule_update_resets_tti = _update_resets_for('ao', 'tti')
 
 
 def rule_wo_node(ctx):
@@ -392,6 +452,47 @@ def rule_unlink_both(ctx):
                     r.violate(nid, 'node-not-unlinked', ','.join(miss), 'a path removes an entry from the map but does not unlink+free its %s node(s): the stale node keeps '
                               'the key alive and later evicts / expires a re-inserted entry of the same key' % miss, where=ctx.where(nid, e[3]),
                               expected='unlink_ao(entry) and unlink_wo(entry) for every removed entry')
+    # an entry REPLACED in the map (HashMap::insert returned the old one) owns the key's two nodes: on every path they are handed on to the new
+    # entry or unlinked + freed -- dropping the old entry just forgets the raw pointers (the nodes, and the key clones they own, stay queued)
+    nid = 'unsync::cache::Cache::insert'
+    upd = named(ctx, 'unsync.update_handler')
+
+    def hands_on(fn):
+        d = set()
+        for x in prog.reachable_from([fn]):
+            d |= eff.direct.get(x, set())
+        return any(e[0] == 'write' and e[2] == 'access_order_q_node' for e in d) and any(e[0] == 'write' and e[2] == 'write_order_q_node' for e in d)
+    nrep = 0
+    _ho = {}
+
+    def _pol(n_, b_, d_):
+        if n_ == upd:
+            return True
+        if n_ not in _ho:
+            _ho[n_] = b_.kind != 'closure' and (hands_on(n_) or bool(unlink_kind(n_)))
+        return False if _ho[n_] else None      # the node hand-over / unlink helpers are the events looked for
+    for p in _run(ctx, nid, inline_depth=3, loop_visits=2, inline_pred=_pol):
+        for e in p.events:
+            if not (e[0] == 'call' and e[1] == 'std::collections::HashMap::insert'):
+                continue
+            res = e[6] if len(e) > 6 else ('call', e[1], e[2])
+            if not any(c == ('discr', res) and v == 1 for c, v in p.conds):
+                continue
+            OLD = ('payload', res, 'Some', 0)
+            nrep += 1
+            taken = [ev[1] for ev in p.events if ev[0] == 'call' and ev[1] in prog.bodies and ev[1] != upd and any(any(y == OLD for y in subterms(a)) for a in ev[2]) and
+                     (hands_on(ev[1]) or unlink_kind(ev[1]))]
+            kinds = set()
+            for t_ in taken:
+                kinds |= ({'ao', 'wo'} if hands_on(t_) else unlink_kind(t_))
+            ok = kinds >= {'ao', 'wo'}
+            r.instance(function=nid, replaced_entry=fmt(OLD)[:50], nodes_taken_over_by=[t_.split('::')[-1] for t_ in taken], ok=ok)
+            if not ok:
+                r.violate(nid, 'replaced-entry-nodes-dropped', ','.join(sorted({'ao', 'wo'} - kinds)), 'a path of insert replaces an entry in the map and drops the old entry without handing its '
+                          'deque nodes to the new entry or unlinking them: the orphan nodes keep the key alive and later evict / expire a re-inserted entry of the same key',
+                          where=ctx.where(nid, e[3]), path=[fmt(c)[:60] + ' == ' + str(v) for c, v in p.conds][:6], expected='entry.replace_deq_nodes_with(old_entry) on every update path')
+    if nrep < 1 and not r.violations:
+        raise CheckFailure('MUST-unlink-both: no path of %s replaces an existing entry (update arm not found)' % nid)
     if n < 6 and not r.violations:
         raise CheckFailure('MUST-unlink-both: only %d entry-bearing removal events analysed (expected >= 6)' % n)
     r.floor = (6, 'entry-bearing removal events')
